@@ -107,15 +107,10 @@ def configure(config_file: Union[Path, str]) -> dict[str, Any]:
 def configure_v2(config: dict[str, Any]) -> None:
     """Read version 2 configuration file"""
 
-    # Some sections may be missing
-    if "state" not in config:
-        config["state"] = dict()
-    if "grid" not in config:
-        config["grid"] = dict()
-    if "ibm" not in config:
-        config["ibm"] = dict()
-    if "warm_start" not in config:
-        config["warm_start"] = dict()
+    # Some sections may be missing or empty
+    for section in ["state", "grid", "ibm", "warm_start"]:
+        if config.get(section) is None:
+            config[section] = dict()
 
     # tracker is mandatory, raise KeyError if missing
     if config["tracker"] is None:
